@@ -4,6 +4,7 @@ import (
 	"context"
 	"errors"
 	"fmt"
+	"github.com/vx-labs/cluster/membership"
 	"net"
 	"os"
 	"sync"
@@ -619,7 +620,19 @@ func (t *clusterTransport) Call(id uint64, f func(*grpc.ClientConn) error) error
 	rec := CallRec{Seq: atomic.AddInt64(&cl.seq, 1), From: t.from.ID, To: id}
 	var err error
 	if unreachable {
-		err = errors.New("injected: peer unreachable")
+		// what the production transport (cluster/membership pool) answers for a peer it cannot
+		// call — its own sentinels, plain or wrapped, not an error invented here: code that
+		// looks at the identity of the error must see the real thing
+		switch k := atomic.AddInt64(&cl.unreachableCalls, 1) % 4; {
+		case target == nil || target.Down || k == 0:
+			err = membership.ErrPeerNotFound
+		case k == 1:
+			err = membership.ErrPeerDisabled
+		case k == 2:
+			err = fmt.Errorf("call to %d failed: %w", id, membership.ErrPeerNotFound)
+		default:
+			err = errors.New("injected: peer unreachable")
+		}
 	} else {
 		err = f(target.client)
 	}
